@@ -60,7 +60,7 @@ def run_rules(repo: Repo, names: List[str]) -> List[Ob]:
             for o in got:
                 if o.rule != nm and not o.rule.startswith(nm):
                     o.rule = nm
-            if len(got) < r["min"]:
+            if len(got) < r["min"] and not any(not o.ok for o in got):
                 raise AnalysisError(
                     f"rule {nm}: {len(got)} instances found, {r['min']} confirmed by hand "
                     f"-- the rule would pass vacuously")
